@@ -53,6 +53,8 @@ def skip_rules(F, rep, tk):
         "Colon": ":", "ColonColon": "::", "ColonEqual": ":=", "Equal": "=", "EqualEqual": "==", "NotEqual": "!=", "AssertEqual": "<=>",
         "Unreachable": "<!>", "LeftParen": "(", "RightParen": ")", "LeftBracket": "[", "RightBracket": "]", "LeftBrace": "{", "RightBrace": "}",
         "Greater": ">", "GreaterEqual": ">=", "Less": "<", "LessEqual": "<=", "Arrow": "->", "Comma": ",", "Dot": ".", "Prime": "'",
+        # the conflict markers are tokens of their own (longest match: seven `<` are one token, not seven comparisons)
+        "GitConflictBegin": "<<<<<<<", "GitConflictEnd": ">>>>>>>",
     }
     bad = {k: (tk.rules.get(k, {}).get("pattern")) for k, v in want_literals.items() if tk.rules.get(k, {}).get("pattern") != v or tk.rules[k]["kind"] != "token"}
     rep.ob("TABLE", "operator-literals", not bad, "the %d operator / punctuation tokens carry their documented spelling (%s)" % (len(want_literals), bad or "ok"),
